@@ -67,16 +67,20 @@ Fixpoint obj_get (k : str) (l : list (str * val)) : val :=
   | (k', v) :: r => if str_eqb k k' then v else obj_get k r
   end.
 
-(* decimal index strings "0", "1", ... (canonical form only) *)
-Definition index_of_key (k : str) : option nat :=
+(* decimal index strings "0", "1", ... (canonical form only); the index stays in N so that a
+   long digit string never becomes a unary number *)
+Definition index_of_key (k : str) : option N :=
   match k with
   | [] => None
-  | [48] => Some 0%nat
+  | [48] => Some 0
   | 48 :: _ => None
   | _ => if forallb is_digit k
-         then Some (N.to_nat (fold_left (fun acc c => acc * 10 + (c - 48)) k 0))
+         then Some (fold_left (fun acc c => acc * 10 + (c - 48)) k 0)
          else None
   end.
+
+Definition nth_N {A : Type} (i : N) (l : list A) : option A :=
+  if i <? N.of_nat (length l) then nth_error l (N.to_nat i) else None.
 
 (* X(o)[k] : null-safe property read *)
 Definition get_prop (o : val) (k : str) : option val :=
@@ -85,13 +89,13 @@ Definition get_prop (o : val) (k : str) : option val :=
   | VObj l => Some (obj_get k l)
   | VArr l => if str_eqb k (lit "length") then Some (VNum (Z.of_nat (length l)))
               else match index_of_key k with
-                   | Some i => Some (nth i l VUndef)
+                   | Some i => Some (match nth_N i l with Some x => x | None => VUndef end)
                    | None => Some VUndef
                    end
   | VStr s => if str_eqb k (lit "length") then (if forallb (fun c => c <? 65536) s then Some (VNum (Z.of_nat (length s))) else None)
               else match index_of_key k with
                    | Some i => if forallb (fun c => c <? 65536) s
-                               then Some (match nth_error s i with Some c => VStr [c] | None => VUndef end)
+                               then Some (match nth_N i s with Some c => VStr [c] | None => VUndef end)
                                else None
                    | None => Some VUndef
                    end
